@@ -243,6 +243,13 @@ package server
 //@   claims step
 //@   loop 0 step a.State.Family == family ==> all == header(all)
 
+// "... until the per-family long-lived timer expires": what the expiry removes are the routes still stale; routes the
+// peer has re-announced since (the session may be up again, End-of-RIB not yet in) are fresh and stay. The closure is
+// the management operation run by the timer goroutine; removing the whole family (dropAdjRIBIn) is not to be reached
+//@ func (*BgpServer).handleFSMMessage$2$1
+//@   claims at-call
+//@   at-call s.dropAdjRIBIn( requires false
+
 //@ props C17
 // from C17 "every ... import-RT ... change triggers exactly the advertisements and withdrawals needed": a route that
 // can no longer be imported into the neighbour's VRF replaces one that could (and was advertised): the neighbour is
